@@ -28,6 +28,21 @@ CLAIMED["C02"]=dict(
    text="Exploration: 10k (quick) / 250k (thorough) cases over {typed, mutant, modules, row-polymorphism templates} x 2^4 (2^5 thorough) setting vectors. Mutants rejected by the checker are counted; accepted ones are the interesting cases. Two recorded known findings (row-type unsoundness D5/D10) are matched by template feature + failure kind.",
    note="the soundness oracle observes what reaches the host (error class/message, value shape); it cannot see silent memory corruption that happens to produce a well-shaped value",
    ref="6 C02")
+CLAIMED["C05"]=dict(
+   technique="property-based testing with fault-style GC schedules: generated allocating programs run with a collection forced at every k-th allocation check (hook), swept blocks poisoned and quarantined, differential against the unstressed run, plus a Trace-driven reachability walk (no swept object, no foreign heap) and a heap-size comparison of repeated runs",
+   text="Exploration: 12k (quick) / 200k (thorough) (program, k) points; a fifth put the program into a module-level lazy value in the global heap forced from a stressed child thread and re-forced after the child is gone. Found and fixed: forced module-level lazies were freed by the next collection.",
+   note="placements of collections are those reachable with periods {1,2,5,13} (quick) / {1,2,3,5,8,13,50}; collections triggered by concurrent OS threads are C14's; references in the global heap are not generated (need run_io at module load)",
+   ref="6 C05")
+CLAIMED["C12"]=dict(
+   technique="round-trip / differential property-based testing: generated programs compiled to bytecode (serde_json) and run from it in the same VM, a fresh VM, via load_bytecode, and in a VM lacking the imports; generated corruptions (truncation, string edit, key deletion) of the serialised form",
+   text="Exploration: 5k (quick) / 120k (thorough) programs; outcome, type text and host calls of each route must equal running the source; corruptions must return without panic and leave the VM usable; numeric corruptions are information only.",
+   note="bytecode is serialised with serde_json as the repository's own test does; programs that compile_to_bytecode's expected-type-less typecheck rejects are counted inconclusive",
+   ref="6 C12")
+CLAIMED["C16"]=dict(
+   technique="metamorphic property-based testing: the canonical rendering (value/failure, type text, diagnostics text, host calls) of a generated (well- or ill-typed) program must be byte-identical in a fresh VM, after unrelated programs in both orders, under another module name, and in a separate process",
+   text="Exploration: 4k (quick) / 150k (thorough) targets x 5-6 renderings. Found and fixed: diagnostics naming an implicit import depended on what the VM had compiled before.",
+   note="every 4th case adds a rendering from a separate process; crashes make a case inconclusive here (judged by C02/C06/C09)",
+   ref="6 C16")
 NOT_YET = {}
 def main():
     props=[json.loads(l) for l in open('/verif/properties.jsonl')]
